@@ -29,6 +29,8 @@ from verif.translators import tdist
 
 OUT = os.path.join(core.LEAN_DIR, "OptunaVerif", "Generated", "DistMethods.lean")
 MODULE = "OptunaVerif.Props.C11DistGen"
+MODULE_FULL = "OptunaVerif.Props.C11DistFull"   # the loops, json_to_distribution, the headline round trips
+MODULES = [MODULE, MODULE_FULL]
 DRIVER = "distirgen"
 ASSUMPTION = (
     "T-dist: the IR's leaves mean what Model/DistIR.lean says - a distribution object = its class + __dict__ in insertion order; ints, "
@@ -69,32 +71,56 @@ def explain_proof_failure(chk: core.Check) -> list[str]:
     pr = chk.proof
     if pr is None or pr.ok:
         return []
-    rel = MODULE.replace(".", "/") + ".lean"
-    base = re.escape(rel.split("OptunaVerif/", 1)[1])
-    lines = sorted({int(m.group(1)) for m in re.finditer(base + r":(\d+):\d+: error", pr.build_log)}
-                   | {int(m.group(1)) for m in re.finditer(r"error: \S*" + base + r":(\d+):", pr.build_log)})
-    if not lines:
-        return []
-    src = open(os.path.join(core.LEAN_DIR, rel)).read().splitlines()
     decl = re.compile(r"\s*(?:theorem|def|example|lemma)\b\s*([^\s:(]*)")
     names: list[str] = []
-    for ln in lines:
-        name = None
-        i0 = min(ln, len(src)) - 1
-        j = i0
-        while j >= 0 and not decl.match(src[j]) and not src[j].lstrip().startswith("/--"):
-            j -= 1
-        rng = range(i0, len(src)) if (j >= 0 and src[j].lstrip().startswith("/--") and not decl.match(src[i0])) else range(i0, -1, -1)
-        for i in rng:
-            m = decl.match(src[i])
-            if m:
-                name = m.group(1) or ("example at line %d: %s" % (i + 1, src[i].strip()[:90]))
-                break
-        if name and name not in names:
-            names.append(name)
-    chk.extra["C11DistGen_failed"] = names
-    chk.broke("proof", {"module": MODULE, "generated_bodies_no_longer_equal_hand_model": names})
+    for mod in MODULES:
+        rel = mod.replace(".", "/") + ".lean"
+        base = re.escape(rel.split("OptunaVerif/", 1)[1])
+        lines = sorted({int(m.group(1)) for m in re.finditer(base + r":(\d+):\d+: error", pr.build_log)}
+                       | {int(m.group(1)) for m in re.finditer(r"error: \S*" + base + r":(\d+):", pr.build_log)})
+        if not lines:
+            continue
+        src = open(os.path.join(core.LEAN_DIR, rel)).read().splitlines()
+        for ln in lines:
+            name = None
+            i0 = min(ln, len(src)) - 1
+            j = i0
+            while j >= 0 and not decl.match(src[j]) and not src[j].lstrip().startswith("/--"):
+                j -= 1
+            rng = range(i0, len(src)) if (j >= 0 and src[j].lstrip().startswith("/--") and not decl.match(src[i0])) else range(i0, -1, -1)
+            for i in rng:
+                m = decl.match(src[i])
+                if m:
+                    name = m.group(1) or ("example at %s line %d: %s" % (mod.split(".")[-1], i + 1, src[i].strip()[:80]))
+                    break
+            if name and name not in names:
+                names.append(name)
+    if names:
+        chk.extra["C11DistGen_failed"] = names
+        chk.broke("proof", {"modules": MODULES, "generated_bodies_no_longer_equal_hand_model": names})
     return names
+
+
+def replay_parse_witness(chk: core.Check) -> None:
+    """`parse_untyped_disagreement_witness` (Props/C11DistFull.lean) on the real code: non-integral numbers for an int class are
+    validated RAW by json_to_distribution (1.5 > 1.2 -> ValueError), while the hand model Dist.fromAttrs truncates first"""
+    import json as _json
+    import warnings as _w
+    from optuna import distributions as OD
+    doc = _json.dumps({"name": "IntDistribution", "attributes": {"low": 1.5, "high": 1.2}})
+    try:
+        with _w.catch_warnings():
+            _w.simplefilter("ignore")
+            got: Any = OD.json_to_distribution(doc)
+        err = None
+    except Exception as e:  # noqa: BLE001
+        got, err = None, type(e).__name__
+    chk.count("dist-gen:parse-witness-replayed")
+    chk.extra.setdefault("dist_ir", {})["parse_untyped_witness"] = {"doc": doc, "real_code": err or repr(got), "hand_model": "IntDistribution(1, 1)",
+                                                                  "interpreter": "ValueError"}
+    if err != "ValueError":
+        chk.broke("correspondence", {"what": "the witness of parse_untyped_disagreement_witness no longer behaves on the real code as the "
+                                             "interpreter of the generated json_to_distribution says (ValueError)", "real_code": err or repr(got)})
 
 
 # ---------------------------------------------------------------------------------------------------------------------------
@@ -181,6 +207,7 @@ def synthetic(r: random.Random) -> dict[str, Any]:
 
 def differential(chk: core.Check, n: int) -> None:
     """generated interpreter vs hand model on seeded synthetic commands; the `parse` op is exercised on the documents `print` produced"""
+    replay_parse_witness(chk)
     r = random.Random(chk.seed * 48271 + 11)
     drv = core.Driver(DRIVER)
     try:
